@@ -342,6 +342,30 @@ func (a *adv) hello(guid protocol.GUID, walk bool) bool {
 	return true
 }
 
+// proveDeviceClaim is proveDevice with the nonce claim given as raw bytes of any length.
+func (a *adv) proveDeviceClaim(key crypto.Signer, guid protocol.GUID, nonceClaim []byte) []byte {
+	var pub *rsa.PublicKey
+	if ok, isRSA := a.e.w.Owner.OwnerSigner(a.e.kind).Public().(*rsa.PublicKey); isRSA {
+		pub = ok
+	}
+	a.sess = a.e.suite.New(bytes.Clone(a.xA), a.e.cipher)
+	xB, err := a.sess.Parameter(rand.Reader, pub)
+	if err != nil {
+		return nil
+	}
+	eat := fdo.XNewEAT(guid, protocol.Nonce{}, struct{ KeyExchangeB []byte }{xB})
+	eat[cose.Label{Int64: 10}] = nonceClaim
+	tok := cose.Sign1[fdo.XEatoken, []byte]{Header: cose.Header{Unprotected: map[cose.Label]any{}}, Payload: cbor.NewByteWrap(eat)}
+	var sn protocol.Nonce
+	_, _ = rand.Read(sn[:])
+	tok.Unprotected[cose.Label{Int64: -259}] = sn
+	if err := tok.Sign(key, nil, nil, signOpts(key, a.e.kind.PSS)); err != nil {
+		return nil
+	}
+	b, _ := cbor.Marshal(tok.Tag())
+	return b
+}
+
 // proveDevice builds a structurally perfect ProveDevice signed with key (claims may be overridden).
 func (a *adv) proveDevice(key crypto.Signer, guid protocol.GUID, nonce protocol.Nonce, withFdoClaim, withSetupNonce bool) []byte {
 	var pub *rsa.PublicKey
@@ -463,6 +487,31 @@ func (e *env) explore(thorough bool) {
 			e.judge("not-a-proof-for-this-session", b.name, a.result(), "")
 		}
 	}
+	// the nonce claim as a byte string of another length: one octet short, one zero octet long, and - in a session
+	// whose issued nonce happens to end in zero octets (found by opening sessions until one does, 1 in 256) - the issued
+	// nonce with its trailing zero octets stripped, which a comparison after zero-padding would take for the nonce
+	{
+		reshape := func(name string, f func(n protocol.Nonce) []byte, wantZeroTail bool) {
+			for try := 0; try < 4000; try++ {
+				a := e.newAdv()
+				if !a.hello(guid, false) {
+					return
+				}
+				if wantZeroTail && a.nonce[15] != 0 {
+					continue
+				}
+				r.Add("sessions_opened_in_search_of_a_nonce_ending_in_zero", int64(try))
+				a.wire.Send(64, a.token, a.proveDeviceClaim(e.w.Dev.Key, guid, f(a.nonce)))
+				e.judge("not-a-proof-for-this-session", name, a.result(), "")
+				return
+			}
+			r.Capped("no session with a nonce ending in a zero octet within 4000 sessions")
+		}
+		reshape("device-key,nonce-claim-one-octet-short", func(n protocol.Nonce) []byte { return n[:15] }, false)
+		reshape("device-key,nonce-claim-with-an-extra-zero-octet", func(n protocol.Nonce) []byte { return append(bytes.Clone(n[:]), 0) }, false)
+		reshape("device-key,nonce-claim-empty", func(n protocol.Nonce) []byte { return []byte{} }, false)
+		reshape("device-key,issued-nonce-ends-in-zero-and-claim-has-it-stripped", func(n protocol.Nonce) []byte { return bytes.TrimRight(n[:], "\x00") }, true)
+	}
 	// the other device's key and GUID in a session opened for this device's GUID, and vice versa
 	{
 		a := e.newAdv()
@@ -561,7 +610,7 @@ func main() {
 		cfgs = append(cfgs, cfg{"ec384", kex.ECDH384Suite, kex.A256GcmCipher}, cfg{"ec256", kex.ECDH256Suite, kex.CoseAes128CbcCipher}, cfg{"rsapss3072", kex.DHKEXid15Suite, kex.CoseAes256CtrCipher},
 			cfg{"rsapkcs3072", kex.ASYMKEX3072Suite, kex.A192GcmCipher}, cfg{"rsapss2048", kex.DHKEXid14Suite, kex.CoseAes256CbcCipher}, cfg{"ec384", kex.ECDH384Suite, kex.CoseAes128CtrCipher})
 	}
-	r.Rule("per configuration: an honest TO2 (non-vacuity: completes, one voucher replacement, owner module ran), then one deviation per run against the real handler+TO2Server: every single-node alteration (thorough: plus every byte ^0x01) of the genuine HelloDevice, GetOVNextEntry and ProveDevice in the device's own live session; structurally perfect ProveDevice tokens signed by 5-6 foreign keys; tokens signed by the genuine device key but with a wrong nonce, another device's UEID, without the key-exchange claim (a relayed TO1 token), without SetupDevice nonce, or recorded in another session; another device proving itself inside this device's session; messages 66/68/70 after {only 60, 60+62s, a failed 64} as plaintext, as ciphertext of another session, under an all-zero key, under a random key, empty; in-session replay of 64. Oracle per session token: any response 65/67/69/71 => reference predicate (a ProveDevice received in that session verifies under the voucher's device-certificate key, carries the nonce issued in that session, the UEID of the session's GUID, a key-exchange parameter and SetupDevice nonce); voucher replacement or owner-module call => some session satisfied it.")
+	r.Rule("per configuration: an honest TO2 (non-vacuity: completes, one voucher replacement, owner module ran), then one deviation per run against the real handler+TO2Server: every single-node alteration (thorough: plus every byte ^0x01) of the genuine HelloDevice, GetOVNextEntry and ProveDevice in the device's own live session; structurally perfect ProveDevice tokens signed by 5-6 foreign keys; tokens signed by the genuine device key but with a wrong nonce, another device's UEID, without the key-exchange claim (a relayed TO1 token), without SetupDevice nonce, with the nonce claim one octet short / one zero octet long / empty / equal to the issued nonce with trailing zero octets stripped (in a session found to have issued a nonce ending in zero), or recorded in another session; another device proving itself inside this device's session; messages 66/68/70 after {only 60, 60+62s, a failed 64} as plaintext, as ciphertext of another session, under an all-zero key, under a random key, empty; in-session replay of 64. Oracle per session token: any response 65/67/69/71 => reference predicate (a ProveDevice received in that session verifies under the voucher's device-certificate key, carries the nonce issued in that session, the UEID of the session's GUID, a key-exchange parameter and SetupDevice nonce); voucher replacement or owner-module call => some session satisfied it.")
 	var wg sync.WaitGroup
 	for _, c := range cfgs {
 		wg.Add(1)
